@@ -130,7 +130,7 @@ def r09_1(ctx):
                             ob(key, True, loc, "whole-node replacement by a builder result (the JSX arms: R07.4)")
                         else:
                             ob(key, False, loc, "the visited expression is overwritten with something that is not a JSX builder's result")
-                    elif name == "visit_mut_block_stmt_or_expr" and e["node"]["lhs"].get("p") == ["*"]:
+                    elif re.search(r"BlockStmtOrExpr>?$", e["node"]["lhs"].get("ty", "")):
                         cf = controlling_fields(ctx, mb, e["bb"])
                         regs = {f.strip(".").split(".")[0] for f in cf}
                         dd = controlling_deps(ctx, mb, e["bb"])
